@@ -476,6 +476,11 @@ def threadsafe_async_cache(
                         await waiter
                     except aio.CancelledError:
                         pass
+                elif waiter.cancelled() and not _cancel_requested():
+                    # The wait itself was cancelled from the caching
+                    # loop's side (e.g. it shut down before the wait
+                    # even started), not this task: check again
+                    continue
                 raise
 
     return _wrapper  # type: ignore[return-value]
